@@ -103,6 +103,17 @@ def run(ctx):
         chosen += ssel
         nshapes += sshapes
     ctx.stage("generate")
+    # Stop in awkward company (real sockets, fresh subprocess): connections open, TLS connections their clients reset a moment
+    # ago, a client blocked in a large unread reply, and - in a second life - a port disabled through CONFIG SET while running
+    if not ctx.replay:
+        ctrace = os.path.join(ctx.work, "c15_stop.ndjson")
+        ctx.harness(["churn", "--out", ctrace, "--cycles", 2, "--inflight", 4, "--seed", ctx.seed], timeout=600)
+        cacc, cs2, cl2 = ctx.validate(ctrace, "TraceServer", stateful=True, shards=1, constants="CONSTANT Diagnose = FALSE\n")
+        if cs2[0] not in cacc:
+            idx, ev = connlib.diagnose(ctx, cl2[cs2[0]], "TraceServer")
+            ctx.violation("Stop with connections in awkward states: observation not allowed by TraceServer: %s" % json.dumps(
+                {k: v for k, v in ev.items() if k not in ("sc", "end")})[:400], {"cmd": "vharness churn --cycles 2 --inflight 4 --seed %d" % ctx.seed, "event": ev})
+        ctx.stage("stop-scenarios")
     accepted, scs, lines = run_scripts(ctx, chosen, "c15")
     infeasible = 0
     groups = {}
@@ -121,17 +132,6 @@ def run(ctx):
         sc = min(members, key=lambda s: len(lines[s]))
         ctx.violation("observation not allowed by TraceServer: %s [%d script(s)] script: %s" % (key, len(members), json.dumps(chosen[sc - 1]["script"])[:300]),
                       {"scenario": chosen[sc - 1], "count": len(members), "trace": [json.loads(x) for x in lines[sc]][:120]})
-    # Stop in awkward company (real sockets, fresh subprocess): connections open, TLS connections their clients reset a moment
-    # ago, a client blocked in a large unread reply, and - in a second life - a port disabled through CONFIG SET while running
-    if not ctx.replay:
-        ctrace = os.path.join(ctx.work, "c15_stop.ndjson")
-        ctx.harness(["churn", "--out", ctrace, "--cycles", 2, "--inflight", 4, "--seed", ctx.seed], timeout=600)
-        cacc, cs2, cl2 = ctx.validate(ctrace, "TraceServer", stateful=True, shards=1, constants="CONSTANT Diagnose = FALSE\n")
-        if cs2[0] not in cacc:
-            idx, ev = connlib.diagnose(ctx, cl2[cs2[0]], "TraceServer")
-            ctx.violation("Stop with connections in awkward states: observation not allowed by TraceServer: %s" % json.dumps(
-                {k: v for k, v in ev.items() if k not in ("sc", "end")})[:400], {"cmd": "vharness churn --cycles 2 --inflight 4 --seed %d" % ctx.seed, "event": ev})
-        ctx.stage("stop-scenarios")
     samples = [{"program": chosen[sc - 1]["prog"], "script": chosen[sc - 1]["script"][:14], "accepted": sc in accepted} for sc in scs[1:400:150]]
     nidle = idle.finish() if idle else 0
     return ctx.finish("model_checking", {
